@@ -88,6 +88,15 @@ def _try_to_reorder(
             *args,
             **kwargs
             ) -> _Ret:
+        # The call is repeated after reordering:
+        # an iterator among the arguments would then
+        # be found consumed by the first attempt.
+        args = tuple(
+            tuple(a) if isinstance(a, _abc.Iterator) else a
+            for a in args)
+        kwargs = {
+            k: tuple(v) if isinstance(v, _abc.Iterator) else v
+            for k, v in kwargs.items()}
         with _ReorderingContext(bdd):
             return func(
                 bdd,
